@@ -477,7 +477,33 @@ func (c *hCtx) checkStuck() {
 				return
 			}
 		}
-		for _, p := range []int{2, 3, 7, 16, 63, 64} {
+		// adversarial period: 64 distinct bytes whose 128 nibbles are exactly uniform (a 4-bit poker test cannot see it)
+		{
+			per := make([]byte, 0, 64)
+			for a := 0; a < 16; a++ {
+				for b := 0; b < 4; b++ {
+					per = append(per, byte(a<<4|((a+b+int(c.req.Seed))&15)))
+				}
+			}
+			data := make([]byte, w.bytes)
+			for i := range data {
+				data[i] = per[i%64]
+			}
+			c.resp.Cases[name]++
+			got := runWF(w.f, safeReader(&sliceReader{b: data, failAt: -1}), limitFor(w))
+			if got.ok || got.err == "" || got.timeout {
+				c.report(name, map[string]interface{}{"workflow": w.name, "period": 64, "content": "nibble-uniform: byte a<<4|((a+b+seed)&15), a<16, b<4", "seed": c.req.Seed}, got.String(), "(false, non-nil error)")
+				return
+			}
+		}
+		periods := []int{2, 3, 7, 16, 63, 64}
+		if c.req.Budget == "thorough" && w.bytes <= 1000000 {
+			periods = nil
+			for p := 2; p <= 64; p++ {
+				periods = append(periods, p)
+			}
+		}
+		for _, p := range periods {
 			per := goodBytes(c.req.Seed+int64(p), p)
 			data := make([]byte, w.bytes)
 			for i := range data {
@@ -503,6 +529,23 @@ func (c *hCtx) checkStuck() {
 				c.report(name, map[string]interface{}{"workflow": "SingleDetect", "constant": int(v), "numByte": nb}, fmt.Sprint(ok, err), "(false, nil): all-zero/all-one sample rejected")
 				return
 			}
+		}
+	}
+}
+
+// C14: the numeric tail facts assumed about Q(a, x), cross-checked against the code's igamc
+func (c *hCtx) checkIgamcTail() {
+	name := "igamc-tail"
+	for _, t := range []struct{ a, x0 float64 }{{127.5, 160}, {7.5, 16}, {1.5, 6}} {
+		prev := 1.0
+		for x := t.x0; x < 400000; x = x*1.07 + 1 {
+			c.resp.Cases[name]++
+			q := randomness.Igamc(t.a, x)
+			if !(q < 0.01) || q < 0 || q > prev+1e-12 {
+				c.report(name, map[string]interface{}{"a": t.a, "x": x}, fmt.Sprint(q), "Q(a,x) < 0.01, non-negative and non-increasing beyond the assumed threshold")
+				return
+			}
+			prev = q
 		}
 	}
 }
@@ -680,6 +723,8 @@ func TestVerifHarness(t *testing.T) {
 		switch name {
 		case "chunking":
 			c.checkChunking()
+		case "igamc-tail":
+			c.checkIgamcTail()
 		case "failing-source":
 			c.checkFailing()
 		case "fast-vs-seq":
